@@ -3,6 +3,8 @@
 From Coq Require Import List Ascii String Arith Bool.
 Import ListNotations.
 From SP Require Import Skel Gen Expected Str PathLex Format FormatParse FormatCommand.
+From SP Require WfModel FormatPaths.
+From Coq Require Import Permutation.
 Notation length := List.length.
 
 (* T1: the five regular expressions the model implements by hand are those in the source *)
@@ -65,6 +67,44 @@ Theorem C15_test_vectors :
   forallb (fun v => match format_command (s2l (fst v)) env0 with Ok r => String.eqb (l2s r) (snd v) | Fail => false end) vectors = true.
 Proof. vm_compute. reflexivity. Qed.
 
+(* a missing value stops the workflow instead of producing a command: if the replacement of ANY placeholder the scanner
+   finds in the pattern fails, formatCommand fails -- wherever the placeholder stands, whatever the others are ... *)
+Theorem C15_missing_fails : forall (cmd : str) (e : env) (whole kind rest : str),
+  In (whole, kind, rest) (find_all cmd 0) -> replacement (port_infos cmd) e kind rest = Fail -> format_command cmd e = Fail.
+Proof. exact FormatCommand.missing_value_fails. Qed.
+
+(* ... and the replacement fails for an absent or empty parameter, an absent or empty tag, an absent in-path, and for a
+   name that port discovery does not know *)
+Theorem C15_missing_cases :
+  (forall infos e name mods pi, lookup name infos = Some pi -> ptype pi = s2l "p" ->
+     (lookup name (e_par e) = None \/ lookup name (e_par e) = Some []) ->
+     hd [] (split_on pipe (name ++ mods)%list) = name -> replacement infos e (s2l "p") (name ++ mods)%list = Fail)
+  /\ (forall infos e name mods pi, lookup name infos = Some pi -> ptype pi = s2l "t" ->
+     (lookup name (e_tag e) = None \/ lookup name (e_tag e) = Some []) ->
+     hd [] (split_on pipe (name ++ mods)%list) = name -> replacement infos e (s2l "t") (name ++ mods)%list = Fail)
+  /\ (forall infos e name mods pi, lookup name infos = Some pi -> ptype pi = s2l "i" -> pjoin pi = None ->
+     (lookup name (e_in e) = None \/ lookup name (e_in e) = Some []) ->
+     hd [] (split_on pipe (name ++ mods)%list) = name -> replacement infos e (s2l "i") (name ++ mods)%list = Fail)
+  /\ (forall infos e kind rest, lookup (hd [] (split_on pipe rest)) infos = None -> replacement infos e kind rest = Fail).
+Proof.
+  split; [exact FormatCommand.replacement_param_missing|]. split; [exact FormatCommand.replacement_tag_missing|].
+  split; [exact FormatCommand.replacement_in_missing|exact FormatCommand.replacement_unknown].
+Qed.
+
+(* output-path patterns (SetOut): a placeholder without a value makes the expansion fail *)
+Theorem C15_setout_missing_fails : forall (pat : str) (ins pars tags : list (str * str)) (whole kind rest : str),
+  In (whole, kind, rest) (find_all pat 0) -> FormatPaths.value_of ins pars tags kind rest = None ->
+  WfModel.expand pat ins pars tags = Fail.
+Proof. exact FormatPaths.setout_missing_fails. Qed.
+
+(* the default output name is a deterministic function of input names, process name, parameters, tags, port name and
+   extension: it does not depend on the order in which the maps are enumerated *)
+Theorem C15_default_path_deterministic : forall (pname pattern port : str) (ins ins' pars pars' tags tags' : list (str * str)),
+  NoDup (map fst ins) -> NoDup (map fst pars) -> NoDup (map fst tags) ->
+  Permutation ins ins' -> Permutation pars pars' -> Permutation tags tags' ->
+  WfModel.default_path pname pattern port ins pars tags = WfModel.default_path pname pattern port ins' pars' tags'.
+Proof. exact FormatPaths.default_path_order_independent. Qed.
+
 (* a missing value never yields a command: absent in-path, absent or empty parameter, absent or empty tag *)
 Theorem C15_missing_fails_examples :
   format_command (s2l "echo {p:x}") {| e_in := []; e_sub := []; e_out := []; e_par := [(s2l "x", [])]; e_tag := [] |} = Fail
@@ -79,4 +119,8 @@ Print Assumptions C15_replace_pieces.
 Print Assumptions C15_command.
 Print Assumptions C15_modifiers_documented.
 Print Assumptions C15_test_vectors.
+Print Assumptions C15_missing_fails.
+Print Assumptions C15_missing_cases.
+Print Assumptions C15_setout_missing_fails.
+Print Assumptions C15_default_path_deterministic.
 Print Assumptions C15_missing_fails_examples.
